@@ -11,7 +11,7 @@ RULE = ("(b) completeness: generated grammars in the stated class (regex termina
         "parsed back through Fandango.parse, which must yield >= 1 tree with the identical serialisation. Non-trivial: word with >= 2 terminals; "
         "distinct by (grammar, word).")
 TIMEOUTS = {"quick": (60, 300), "thorough": (150, 2400)}
-MIN = {"quick": {"cases": 150, "nontrivial": 1500, "observed": {"words_parsed": 3000, "roundtrips": 1000}},
+MIN = {"quick": {"cases": 120, "nontrivial": 1500, "observed": {"words_parsed": 3000, "roundtrips": 1000}},
        "thorough": {"cases": 2000, "nontrivial": 20000, "observed": {"words_parsed": 40000}}}
 ASSUMPTIONS = ["grammar class as in the statement: generated regex terminals are followed by a delimiter outside their alphabet",
                "harvested specs may contain regexes that split ambiguously; a round-trip failure there is only reported when the reference recogniser "
@@ -33,7 +33,7 @@ PROFILES = [
 
 def cases(tier, seed):
     rng = random.Random(5000 + seed)
-    n = 200 if tier == "quick" else 2400
+    n = 160 if tier == "quick" else 2400
     out = [{"key": f"{PROFILES[i % len(PROFILES)][0]}-{i}", "kind": "gen", "profile": PROFILES[i % len(PROFILES)][0],
             "gseed": rng.randrange(1 << 30), "seed": rng.randrange(1 << 30)} for i in range(n)]
     from vf.gen import harvest
@@ -79,6 +79,9 @@ def classify(model, word, start):
     def t_nonascii(e):
         if e[0] == "lit" and isinstance(e[1], str) and any(ord(ch) > 127 for ch in e[1]):
             return ("regex", "(?!)", False)
+        if e[0] == "regex" and not e[2]:
+            # a text regex inside a binary grammar: only ASCII instances are unaffected
+            return ("regex", "(?=[\\x00-\\x7f]*\\Z)(?:" + e[1] + ")", False)
         return e
 
     def t_shared(e):
@@ -94,7 +97,7 @@ def classify(model, word, start):
     mechs = []
     if any(e[0] == "regex" and re.fullmatch(e[1], "") is not None for e in exprs):
         mechs.append(("regex-terminal-matched-empty", t_regex_empty))
-    if model.binary and any(e[0] == "lit" and isinstance(e[1], str) and any(ord(ch) > 127 for ch in e[1]) for e in exprs):
+    if model.binary and any((e[0] == "lit" and isinstance(e[1], str) and any(ord(ch) > 127 for ch in e[1])) or (e[0] == "regex" and not e[2]) for e in exprs):
         mechs.append(("non-ascii-text-in-binary-grammar", t_nonascii))
     if shared:
         mechs.append(("shared-nullable-nonterminal-derives-empty", t_shared))
@@ -194,6 +197,7 @@ def run_case(c):
     has_computed = "computed-repetition" in feats
     trees = []
     random.seed(c["seed"])
+    steps.reset()
     if not has_computed:
         for budget in (3, 10, 40, 100):
             for _ in range(4 if c["kind"] == "gen" else 2):
@@ -201,6 +205,7 @@ def run_case(c):
                     trees.append(("fuzz", f.grammar.fuzz("<start>", max_nodes=budget)))
                 except Exception as e:
                     stats["fuzz_raised:" + type(e).__name__] += 1
+    steps.reset()
     if c["kind"] == "harvest" or rng.random() < 0.3:
         try:
             sols = f.fuzz(desired_solutions=8, max_generations=3, population_size=12, random_seed=c["seed"] & 0xFFFF)
